@@ -107,6 +107,7 @@ fn names_need_no_quoting(p: &JPath) -> bool {
 }
 
 pub fn check_intended(ctx: &mut Ctx, path: &JPath, text: &str, style: &str) {
+    ctx.evals += 1;
     ctx.count(&format!("rendering.{}", style));
     let info = || format!("path text={:?} intended={:?}", text, path);
     let feats = features(path);
@@ -146,6 +147,7 @@ pub fn check_intended(ctx: &mut Ctx, path: &JPath, text: &str, style: &str) {
 }
 
 pub fn totality(ctx: &mut Ctx, raw: &[u8], class: &str, must_reject: bool) {
+    ctx.evals += 1;
     ctx.count(&format!("raw.{}", class));
     let info = || format!("class={} input={:?} bytes={}", class, lossy(raw), hex(raw));
     match guard(|| parse_json_path(raw).map(|p| format!("{:?}", p)).map_err(|_| ())) {
